@@ -503,7 +503,7 @@ def pure(prop):
 
 
 def check_pure(prop, tier, seed, replay, harness, mode, gen_lines, rule, assumptions, std='c++17', nontrivial=None,
-               post=None, extra_trusted=None, prepare=None):
+               post=None, extra_trusted=None, prepare=None, selfcheck=()):
     """properties decided by a pure function: one input line -> one output line on both sides."""
     t0 = time.time()
     violations = []
@@ -600,6 +600,26 @@ def check_pure(prop, tier, seed, replay, harness, mode, gen_lines, rule, assumpt
         if not any(l == x[0] for x in bad[:3]):
             path = vlib.write_replay(prop, tier, seed, 'crash', ['verdict violation', 'implementation crashed: ' + e], [l])
             violations.append((path, False))
+    # self-checking program families (PASS/FAIL <case> lines, DONE at the end), built against the current headers
+    families = {}
+    for hname, hstd, what in (() if replay else selfcheck):
+        try:
+            sx = vlib.build_simple_harness(hname, std=hstd)
+            out_s, errs_s = vlib.run_noinput(sx)
+            cases = [l for l in out_s if l.startswith(('PASS', 'FAIL'))]
+            bad_s = [l for l in cases if l.startswith('FAIL')]
+            families[hname] = dict(cases=len(cases), failed=len(bad_s))
+            if bad_s or errs_s or not any(l.startswith('DONE') for l in out_s):
+                path = vlib.write_replay(prop, tier, seed, hname, ['verdict violation', what,
+                                         'reproduce: g++ -std=%s -fsanitize=address,undefined -I/repo/include /verif/harness/%s/h_%s.cpp && ./a.out' % (hstd, hname, hname)],
+                                         (bad_s or out_s[-5:]) + ([errs_s[0][1][:1500]] if errs_s else []))
+                violations.append((path, False))
+        except vlib.BuildError as e:
+            path = vlib.write_replay(prop, tier, seed, hname + '-build', ['verdict violation', 'harness/%s no longer compiles against the headers' % hname],
+                                     str(e).split('\n')[-30:])
+            violations.append((path, False))
+    if families:
+        notes.append('self-checking families: %s' % families)
     wall = time.time() - t0
     if any(not nf for _, nf in violations):
         for pth, nf in violations:
@@ -730,7 +750,9 @@ def check_c18(tier, seed, replay):
         assumptions=['addresses printed for non-null pointers are canonicalised to <addr>',
                      'the standard stream\'s padding of a string insertion (operator<<(ostream&, const char*)) is modelled by `pad`'],
         nontrivial=lambda l, b: not l.startswith('0 dec left 32 0 |'),
-        extra_trusted=['libstdc++ formatted output of int / string under dec, left, fill space, width 0; `pad` for string literals'])
+        extra_trusted=['libstdc++ formatted output of int / string under dec, left, fill space, width 0; `pad` for string literals'],
+        selfcheck=[('describe', 'c++17', 'an expected value held by a matcher (element of a range matcher, operand of any_of / all_of / none_of) that is a '
+                    'null pointer is not described as nullptr in the report, or the report ends there')])
 
 
 lean_workdir = vlib.lean_workdir
